@@ -246,6 +246,44 @@ R11.4 config templates and mock templates are both created with Funcs(template_f
 				if calleeName(info, x) == "("+modPath+"/config.RootConfig).Initialize" {
 					initPos = x.Pos()
 				}
+				// or the loaded path is put under the key "config" in the koanf instance before decoding (it then
+				// reaches ConfigFile through the decoder), outside any condition
+				if strings.HasSuffix(calleeName(info, x), "koanf/v2.Koanf).Set") && len(x.Args) == 2 {
+					if tv, ok := info.Types[x.Args[0]]; ok && tv.Value != nil && tv.Value.ExactString() == `"config"` {
+						usesPath := false
+						ast.Inspect(x.Args[1], func(m ast.Node) bool {
+							if call, ok := m.(*ast.CallExpr); ok && strings.HasSuffix(calleeName(info, call), "pathlib.Path).String") {
+								if root, _ := selChainCalls(call.Fun); root != nil && pathObj != nil && info.Uses[root] == pathObj {
+									usesPath = true
+								}
+							}
+							return true
+						})
+						// unconditional: the statement that contains the call is a statement of the function body
+						top := false
+						for _, st := range nr.Body.List {
+							if is, ok := st.(*ast.IfStmt); ok && is.Init != nil && is.Init.Pos() <= x.Pos() && x.End() <= is.Init.End() {
+								top = true
+							}
+							if es, ok := st.(*ast.ExprStmt); ok && es.Pos() <= x.Pos() && x.End() <= es.End() {
+								top = true
+							}
+							if as, ok := st.(*ast.AssignStmt); ok && as.Pos() <= x.Pos() && x.End() <= as.End() {
+								top = true
+							}
+						}
+						decodeAfter := false
+						ast.Inspect(nr.Body, func(m ast.Node) bool {
+							if call, ok := m.(*ast.CallExpr); ok && call.Pos() > x.End() && strings.Contains(calleeName(info, call), "koanf/v2.Koanf).Unmarshal") {
+								decodeAfter = true
+							}
+							return true
+						})
+						if usesPath && top && decodeAfter {
+							storePos = x.Pos()
+						}
+					}
+				}
 			}
 			return true
 		})
